@@ -2,10 +2,10 @@
   MongoModel.Sort — natural order, sort, skip and limit (property C11), followed line by line
   (line numbers of the tree at the time of writing; the functions are named):
 
-    filtering.resolve_key / resolve_sort_key / BsonComparable   mongomock/filtering.py:521-547
-    Collection._get_dataset                                      mongomock/collection.py:1075-1090
+    filtering.resolve_key / resolve_sort_key / BsonComparable   mongomock/filtering.py:521-551
+    Collection._get_dataset                                      mongomock/collection.py:1076-1093
     Cursor (__init__, _compute_results, sort/skip/limit,
-            __getitem__, clone, rewind)                          mongomock/collection.py:1875-2023
+            __getitem__, clone, rewind)                          mongomock/collection.py:1890-2052
     Collection.count_documents (skip/limit arithmetic)           mongomock/collection.py:1473-1498
     Collection.aggregate, $sort / $skip / $limit stages          mongomock/collection.py:1812,
                                                                  mongomock/aggregate.py:1367-1376,1621,1635
@@ -42,6 +42,12 @@ def okTrue : R Bool → Bool
   | .ok true => true
   | _ => false
 
+/-- a Python exception (not the model's "not expressed") -/
+def isRaise {α} : R α → Bool
+  | .ok _ => false
+  | .error .unmodelled => false
+  | .error _ => true
+
 /-- every comparison between two positions of the list (in either direction) succeeds -/
 def pairsOk {α} (lt : α → α → R Bool) : List α → Bool
   | [] => true
@@ -50,7 +56,7 @@ def pairsOk {α} (lt : α → α → R Bool) : List α → Bool
 /-- every comparison between two positions of the list raises -/
 def pairsFail {α} (lt : α → α → R Bool) : List α → Bool
   | [] => true
-  | x :: xs => xs.all (fun y => !isOk (lt x y) && !isOk (lt y x)) && pairsFail lt xs
+  | x :: xs => xs.all (fun y => isRaise (lt x y) && isRaise (lt y x)) && pairsFail lt xs
 
 /-- `sorted(xs, key=…, reverse=…)` where the comparison of two keys may raise.
     * all comparisons defined: the stable sort; `reverse=True` is CPython's
@@ -59,7 +65,8 @@ def pairsFail {α} (lt : α → α → R Bool) : List α → Bool
     * all comparisons raise (and there are at least two elements, otherwise `pairsOk` holds):
       any sorting algorithm performs at least one → `TypeError`;
     * some raise, some do not: whether timsort happens to perform a raising comparison depends
-      on its internals — not modelled. -/
+      on its internals — not modelled; neither is a sort in which some comparison is one the
+      model does not express (the order of two library-generated ObjectIds). -/
 def pySorted {α} (lt : α → α → R Bool) (reverse : Bool) (xs : List α) : R (List α) :=
   if pairsOk lt xs then
     .ok (if reverse then (isort (fun a b => okTrue (lt a b)) xs.reverse).reverse
@@ -75,25 +82,22 @@ structure SortKey where
   val : Val
   deriving Repr, Inhabited
 
-/-- `resolve_key`: `next(iter(iter_key_candidates(key, doc)), NOTHING)` -/
+/-- `resolve_key`: `next(iter(iter_key_candidates(key, doc)), NOTHING)` (no longer used by the
+    sort) -/
 def resolveKey (key : String) (d : Val) : R (Option Val) :=
   match candsKey key d with
   | .error e => .error e
   | .ok [] => .ok none
   | .ok (c :: _) => .ok c
 
-/-- `resolve_sort_key` (filtering.py:525-537): NOTHING → `(1, None)`; a list is sorted solely by
-    its first value, an empty list → `(0, None)` -/
-def sortKeyOf : Option Val → SortKey
-  | none => ⟨1, .null⟩
-  | some (.arr []) => ⟨0, .null⟩
-  | some (.arr (x :: _)) => ⟨1, x⟩
-  | some v => ⟨1, v⟩
-
-def resolveSortKey (key : String) (d : Val) : R SortKey :=
-  match resolveKey key d with
-  | .error e => .error e
-  | .ok c => .ok (sortKeyOf c)
+/-- the body of the loop of `resolve_sort_key` (filtering.py:525-541): what one reached value
+    contributes to `sort_keys` — NOTHING → `(1, None)`; a list → `(0, None)` when empty, else one
+    `(1, item)` per item; anything else → `(1, value)` -/
+def candSortKeys : Option Val → List SortKey
+  | none => [⟨1, .null⟩]
+  | some (.arr []) => [⟨0, .null⟩]
+  | some (.arr xs) => xs.map (fun x => ⟨1, x⟩)
+  | some v => [⟨1, v⟩]
 
 /-- `(i, BsonComparable(a)) < (j, BsonComparable(b))`: tuple comparison — the ints decide when
     they differ (`BsonComparable` defines no `__eq__`, two distinct wrappers are never `==`), else
@@ -101,6 +105,27 @@ def resolveSortKey (key : String) (d : Val) : R SortKey :=
 def keyLt (a b : SortKey) : R Bool :=
   if a.rank ≠ b.rank then .ok (decide (a.rank < b.rank))
   else bsonCompare .lt a.val b.val true
+
+/-- `min(sort_keys)` (`reverse = false`: `if item < best: best = item`) and `max(sort_keys)`
+    (`reverse = true`: `if item > best: best = item`, where `item > best` on these tuples is
+    `best < item` through the reflected `BsonComparable.__lt__`); a comparison that raises makes
+    the whole key computation raise -/
+def pickSortKey (reverse : Bool) : SortKey → List SortKey → R SortKey
+  | best, [] => .ok best
+  | best, k :: r =>
+    match (if reverse then keyLt best k else keyLt k best) with
+    | .error e => .error e
+    | .ok b => pickSortKey reverse (if b then k else best) r
+
+/-- `resolve_sort_key(key, doc, reverse)`: the smallest (largest when `reverse`) of the keys of
+    all reached values; nothing reached → `(1, None)` -/
+def resolveSortKey (key : String) (reverse : Bool) (d : Val) : R SortKey :=
+  match candsKey key d with
+  | .error e => .error e
+  | .ok cs =>
+    match cs.flatMap candSortKeys with
+    | [] => .ok ⟨1, .null⟩
+    | k :: r => pickSortKey reverse k r
 
 def Val.isScalar : Val → Bool
   | .doc _ | .arr _ => false
@@ -126,20 +151,20 @@ def mapR {α β} (f : α → R β) : List α → R (List β)
       | .ok ys => .ok (y :: ys)
 
 /-- the comparison `sorted` performs between two documents under one sort key -/
-def docKeyLt (key : String) (a b : Val) : R Bool :=
-  match resolveSortKey key a, resolveSortKey key b with
+def docKeyLt (key : String) (reverse : Bool) (a b : Val) : R Bool :=
+  match resolveSortKey key reverse a, resolveSortKey key reverse b with
   | .ok ka, .ok kb => keyLt ka kb
   | .error e, _ => .error e
   | _, .error e => .error e
 
-/-- `sorted(dataset, key=lambda x: resolve_sort_key(sort_key, x), reverse=…)`: all keys are
-    computed first (decorate), then compared -/
+/-- `sorted(dataset, key=lambda x: resolve_sort_key(sort_key, x, reverse), reverse=reverse)`: all
+    keys are computed first (decorate), then compared -/
 def sortedByKey (key : String) (reverse : Bool) (docs : List Val) : R (List Val) :=
-  match mapR (resolveSortKey key) docs with
+  match mapR (resolveSortKey key reverse) docs with
   | .error e => .error e
   | .ok ks =>
     if !(ks.all (fun k => keyShallow k.val)) then unmodelled
-    else pySorted (docKeyLt key) reverse docs
+    else pySorted (docKeyLt key reverse) reverse docs
 
 /-! ### `_get_dataset`, `$sort` -/
 
@@ -191,12 +216,13 @@ def pyTakeTo {α} (e : Int) (xs : List α) : List α :=
 structure Cursor where
   sort : Option SortSpec
   skip : Int
-  limit : Option Int        -- `None`, or an int (0 only through an empty slice)
+  limit : Option Int        -- `None`, or an int (0 only through a slice)
+  empty : Bool              -- `self.__empty`: the last slice was empty (`cursor[a:a]`)
   deriving Repr, Inhabited, DecidableEq
 
-/-- `Cursor.__init__`: `self._limit = limit if limit != 0 else None` -/
+/-- `Cursor.__init__`: `self._limit = limit if limit != 0 else None; self.__empty = False` -/
 def Cursor.new (sort : Option SortSpec) (skip limit : Int) : Cursor :=
-  ⟨sort, skip, if limit ≠ 0 then some limit else none⟩
+  ⟨sort, skip, if limit ≠ 0 then some limit else none, false⟩
 
 inductive CurOp where
   | skip (n : Int)                              -- `.skip(n)`
@@ -208,16 +234,18 @@ inductive CurOp where
   | rewind                                      -- `.rewind()` (before any iteration: no effect)
   deriving Repr, Inhabited
 
-/-- the `index.stop` half of `Cursor.__getitem__` with a slice -/
+/-- the `index.stop` half of `Cursor.__getitem__` with a slice: `limit = index.stop - skip`,
+    `empty = (limit == 0)`; an open-ended slice stores limit 0 (= no limit) and is not empty -/
 def sliceStop (c : Cursor) (skip : Int) : Option Int → R Cursor
   | some stop =>
     if stop - skip < 0 then .error .indexErr
-    else .ok { c with skip := skip, limit := some (stop - skip) }
-  | none => .ok { c with skip := skip, limit := some 0 }
+    else .ok { c with skip := skip, limit := some (stop - skip),
+                      empty := decide (stop - skip = 0) }
+  | none => .ok { c with skip := skip, limit := some 0, empty := false }
 
 def Cursor.step (c : Cursor) : CurOp → R Cursor
   | .skip n => .ok { c with skip := n }
-  | .limit n => .ok { c with limit := if n ≠ 0 then some n else none }
+  | .limit n => .ok { c with limit := if n ≠ 0 then some n else none, empty := false }
   | .sortKey k d =>
     -- helpers.create_index_list: `[(key, direction or ASCENDING)]`
     .ok { c with sort := some [(k, match d with
@@ -230,7 +258,8 @@ def Cursor.step (c : Cursor) : CurOp → R Cursor
     | some s => if s < 0 then .error .indexErr else sliceStop c s stop
     | none => sliceStop c 0 stop
   | .clone =>
-    -- Cursor(…, self._skip, self._limit) runs `limit if limit != 0 else None` again
+    -- Cursor(…, self._skip, self._limit) runs `limit if limit != 0 else None` again;
+    -- `cursor.__empty = self.__empty`
     .ok { c with limit := match c.limit with
                           | some l => if l ≠ 0 then some l else none
                           | none => none }
@@ -241,11 +270,14 @@ def Cursor.run (c : Cursor) : List CurOp → R Cursor
   | op :: ops => bindR (c.step op) (fun c' => c'.run ops)
 
 /-- `_compute_results(with_limit_and_skip=True)`:
-    `results = self._results[self._skip:]; if self._limit: results = results[:abs(self._limit)]` -/
+    `results = self._results[self._skip:]`
+    `if self.__empty: results = []`
+    `elif self._limit: results = results[:abs(self._limit)]` -/
 def Cursor.window {α} (c : Cursor) (data : List α) : List α :=
-  match c.limit with
-  | some l => if l ≠ 0 then (pyDropFrom c.skip data).take l.natAbs else pyDropFrom c.skip data
-  | none => pyDropFrom c.skip data
+  if c.empty then []
+  else match c.limit with
+    | some l => if l ≠ 0 then (pyDropFrom c.skip data).take l.natAbs else pyDropFrom c.skip data
+    | none => pyDropFrom c.skip data
 
 /-- `list(cursor)` on a cursor that has not been iterated yet; `docs` = the documents selected
     by the filter, in natural order -/
